@@ -200,6 +200,10 @@ def run(P: Program, R: Report, tier: str) -> None:
     callers_container(P, R, "R18.5")
     scale_default_only_for_none(P, R, "R18.6")
     time_is_frame_index(P, R, "R18.7")
+    callers_container_untouched(P, R, "R18.8")
+    from .annot import nested_total_write
+
+    nested_total_write(P, R, P.func_named("add_iou"), "R18.9")
 
 
 # ---------------------------------------------------------------------------------------------------------------------
@@ -424,3 +428,29 @@ def time_is_frame_index(P: Program, R: Report, rule: str, only_seg: bool = False
                     R.fail(rule, g, d, label, f"time is `{tv}`, not the frame index `{lv}`: relabel_segmentation_with_track_id and the IoU pass index the array with it")
                 else:
                     R.undecided(rule, g, d, label, f"time is `{tv}`")
+
+
+def callers_container_untouched(P: Program, R: Report, rule: str) -> None:
+    """Building a candidate graph reads the detections; it does not change the caller's array or list.  A parameter that
+    is re-bound to `np.asarray(param)` is still the caller's array whenever no conversion was needed (same dtype), so an
+    in-place `*=` on it rescales the caller's detections - a second call on the same array sees them scaled twice."""
+    from ..effects import Effects
+
+    E = Effects(P)
+    n = 0
+    for f in P.functions.values():
+        if ".candidate_graph." not in f.qname or f.parent is not None or not f.params:
+            continue
+        for p_ in f.params:
+            if not any(k in p_ for k in ("seg", "points", "frame")):
+                continue
+            n += 1
+            eff = [(pa, w) for pa, k, w in E.effects_on(f, p_) if k == "content"]
+            label = f"{f.short}: the caller's `{p_}` is only read"
+            if eff:
+                pa, w = eff[0]
+                R.fail(rule, f, w, label, f"`{p_}{''.join('.' + x for x in pa)}` is written at {w}: the caller's detections are changed by building the graph "
+                       "(an alias through np.asarray / a view is still the caller's storage)")
+            else:
+                R.ok(rule, f, f.node, label, via="effect-analysis")
+    R.floor(rule, "container parameters of the candidate-graph package", n, 4)
